@@ -36,6 +36,9 @@ EDGE_COLORS = ["white", "gray", "yellow"]
 # colour names, with tuples of another length or with None (V14)
 FACE_TUPLES = ["rgb_0_100_0", "rgb_0_100_100", "rgba_100_0_100_100"]
 EDGE_TUPLES = ["rgb_0_0_0", "rgba_50_0_0_100"]
+LAYER_COLORS = ["red", "blue", "green"]
+LAYER_CMAPS = ["viridis", "plasma"]
+LAYER_NAMES = ["v", "heat", "b"]
 MARKERS = ["o", "s", "^", "v", "D"]
 SIZES = [5, 10, 20, 40]
 ZORDERS = [0, 1, 2, 3]
@@ -56,6 +59,7 @@ def L():
 
     import altair  # noqa
     import matplotlib
+    import matplotlib.pyplot as plt
     import networkx as nx
     import numpy as np
     import solara
@@ -138,7 +142,7 @@ def or_dash(s):
     return s if s else "-"
 
 
-EXC = {IndexError: "err Index", AttributeError: "err Attribute", NotImplementedError: "err NotImplemented"}
+EXC = {IndexError: "err Index", AttributeError: "err Attribute", NotImplementedError: "err NotImplemented", ValueError: "err Value"}
 
 
 def exc_tok(e):
@@ -199,7 +203,7 @@ class SpaceImpl:
         self.where = {}  # vid -> (x, y): the harness' own record of where it put the agent
         self.heap = []  # the dict objects the portrayal hands out
         self.pmap = {}  # vid -> heap index
-        self.layer = None
+        self.layers = {}  # name -> PropertyLayer
         self.trace = []
 
     # the portrayal callable given to the drawing code ------------------------------------------
@@ -443,89 +447,174 @@ class SpaceImpl:
         return "ok" + "".join(f" {i}:{{{fmt_dict(d)}}}" for i, d in enumerate(self.heap))
 
     # property layers ---------------------------------------------------------------------------
-    def set_layer(self, vals):
+    def set_layer(self, name, vals):
         m = L()
         np = m["np"]
         if self.fam not in GRIDS or len(vals) != self.w * self.h:
             raise ValueError("layer")
         data = np.asarray(vals, dtype=int).reshape(self.w, self.h)
-        if self.layer is None:
+        if name not in self.layers:
             # the dtype is invisible to the protocol (values are small integers either way): float layers — the
             # library's default dtype — are used for every second value vector so that in-place arithmetic on
             # the layer's own array during drawing would show
             dt = float if sum(vals) % 2 == 0 else int
             if self.fam in GRID_LEGACY:
-                self.layer = m["ms"].PropertyLayer("v", self.w, self.h, dt(0), dtype=dt)
-                self.space.add_property_layer(self.layer)
+                lay = m["ms"].PropertyLayer(name, self.w, self.h, dt(0), dtype=dt)
             else:
-                self.layer = m["NewLayer"]("v", (self.w, self.h), default_value=dt(0), dtype=dt)
-                self.space.add_property_layer(self.layer)
-        self.layer.data[:] = data
+                lay = m["NewLayer"](name, (self.w, self.h), default_value=dt(0), dtype=dt)
+            self.space.add_property_layer(lay)
+            self.layers[name] = lay
+        self.layers[name].data[:] = data
         return "ok"
 
-    def draw_layer(self, mode):
+    @staticmethod
+    def frac_tok(a, maxden=4000):
+        """a float read back from the Axes as an exact fraction in lowest terms ('?' if it is none)"""
+        from fractions import Fraction
+
+        a = float(a)
+        if not math.isfinite(a):
+            return "?"
+        f = Fraction(a).limit_denominator(maxden)
+        if abs(float(f) - a) > 1e-9:
+            return "?"
+        return str(f.numerator) if f.denominator == 1 else f"{f.numerator}/{f.denominator}"
+
+    @staticmethod
+    def cbar_tok(lo, hi):
+        """the range of a colour bar; matplotlib widens a range without extent (nonsingular, expander 0.1)"""
+        lo, hi = float(lo), float(hi)
+        if lo == int(lo) and hi == int(hi):
+            return f"{int(lo)}..{int(hi)}"
+        mid = (lo + hi) / 2
+        if abs(mid - round(mid)) < 1e-9:
+            half = 0.1 * abs(round(mid)) if round(mid) else 0.1
+            if abs((hi - lo) / 2 - half) < 1e-9:
+                return f"{round(mid)}..{round(mid)}"
+        return "?..?"
+
+    def draw_layers(self, specs):
+        """specs: [(name, mode, colour-or-cmap, alpha%, vmin, vmax, cbar)] with None for keys left out"""
         m = L()
-        np = m["np"]
-        data = self.layer.data.copy()
-        auto = mode.endswith("auto")
-        vmin, vmax = (int(data.min()), int(data.max())) if auto else (0, 9)
-        port = {"colorbar": False}
-        if not auto:
-            port.update(vmin=0, vmax=9)
-        if mode.startswith("cmap"):
-            port["colormap"] = "viridis"
-        else:
-            port["color"] = "red"
-        ax = m["Figure"]().add_subplot()
+        np, plt = m["np"], m["plt"]
+        before = {n: lay.data.copy() for n, lay in self.layers.items()}
+        datas = {n: d.astype(int).tolist() for n, d in before.items()}
+        request = {}
+        for name, mode, arg, alpha, vmin, vmax, cbar in specs:
+            port = {}
+            if mode == "color":
+                port["color"] = arg
+            elif mode == "cmap":
+                port["colormap"] = arg
+            if alpha is not None:
+                port["alpha"] = alpha / 100
+            if vmin is not None:
+                port["vmin"] = vmin
+            if vmax is not None:
+                port["vmax"] = vmax
+            if cbar is not None:
+                port["colorbar"] = cbar
+            request[name] = port
+        fig = m["Figure"]()
+        ax = fig.add_subplot()
         with warnings.catch_warnings():
             warnings.simplefilter("ignore")
             try:
-                m["draw_property_layers"](self.space, {"v": port}, ax)
+                m["draw_property_layers"](self.space, request, ax)
             except Exception as e:
-                self.trace.append(("layer", data.tolist(), mode, None, exc_tok(e)))
+                self.trace.append(("layers", self.fam, datas, specs, None, exc_tok(e)))
                 return exc_tok(e)
-        if not np.array_equal(self.layer.data, data):
-            self.trace.append(("layer-mutated", data.tolist(), np.asarray(self.layer.data).tolist()))
-        data = data.astype(int)
-        cmap = m["matplotlib"].colormaps["viridis"]
-        norm = m["Normalize"](vmin, vmax)
-        cands = list(range(vmin, vmax + 1))
-
-        def value_of(rgba):
-            if mode.startswith("cmap"):
-                best = min(cands, key=lambda v: float(np.abs(np.asarray(cmap(norm(v))) - rgba).sum()))
-                return best if float(np.abs(np.asarray(cmap(norm(best))) - rgba).sum()) < 1e-6 else "?"
-            a = float(rgba[3])
-            if not (0.0 <= a <= 1.0):  # NaN (masked) or out of range: no value is shown
-                return "?"
-            if vmax == vmin:  # a range without extent is drawn at level 0 (V13)
-                return vmin if a == 0.0 else "?"
-            v = a * (vmax - vmin) + vmin
-            return int(round(v)) if abs(v - round(v)) < 1e-6 else "?"
-
-        if ax.images:
-            arr = np.ma.filled(ax.images[-1].get_array().astype(float), np.nan)
-            if arr.ndim == 2:
-                img = [[int(v) for v in row] for row in arr]
+            finally:
+                plt.close("all")  # plt.colorbar creates a pyplot figure as a side effect
+        for n, lay in self.layers.items():
+            if not np.array_equal(lay.data, before[n]):
+                self.trace.append(("layer-mutated", before[n].tolist(), np.asarray(lay.data).tolist()))
+        colors = {tuple(m["to_rgba"](c)[:3]): c for c in LAYER_COLORS}
+        bars = {}
+        for cax in fig.axes[1:]:
+            cb = getattr(cax, "_colorbar", None)
+            if cb is not None:
+                bars.setdefault(cax.get_ylabel(), []).append(self.cbar_tok(cb.norm.vmin, cb.norm.vmax))
+        # the pictures, in the order they were put on the Axes; each is matched to the request by its position among
+        # the drawn layers (the names the space has a layer for)
+        drawn_names = [name for name, *_ in specs if name in self.layers]
+        pics = list(ax.images) if self.fam not in HEXES else [c for c in ax.collections if isinstance(c, m["PolyCollection"])]
+        out, res = "ok", []
+        for i, pic in enumerate(pics):
+            name = drawn_names[i] if i < len(drawn_names) else "?"
+            spec = next((sp for sp in specs if sp[0] == name), None)
+            bar = bars.get(name, [])
+            btok = "-" if not bar else bar[0] if len(bar) == 1 else "twice"
+            if self.fam not in HEXES:
+                arr = np.ma.filled(pic.get_array().astype(float), np.nan)
+                if arr.ndim == 3:
+                    ctok = colors.get(tuple(arr[0, 0, :3]), "?")
+                    if not (arr[..., :3] == arr[0, 0, :3]).all():
+                        ctok = "?"
+                    rows = [[self.frac_tok(px[3]) for px in row] for row in arr]
+                    head = f"{name} img color={ctok} cbar={btok}"
+                    res.append((name, "img", ctok, None, None, None, btok, rows))
+                else:
+                    rows = [[to_tok("", v) for v in row] for row in arr]
+                    al = pic.get_alpha()
+                    atok = "100" if al is None else to_tok("alpha", al)
+                    head = (f"{name} imgmap cmap={pic.get_cmap().name} alpha={atok} vmin={to_tok('', pic.norm.vmin)} "
+                            f"vmax={to_tok('', pic.norm.vmax)} cbar={btok}")
+                    res.append((name, "imgmap", pic.get_cmap().name, atok, to_tok("", pic.norm.vmin), to_tok("", pic.norm.vmax), btok, rows))
+                out += " | " + head + "".join(f" r{r}=" + ",".join(row) for r, row in enumerate(rows))
             else:
-                img = [[value_of(px) for px in row] for row in arr]
-            self.trace.append(("layer", data.tolist(), mode, ("img", img), None))
-            return "ok img" + "".join(f" r{r}=" + ",".join(map(str, row)) for r, row in enumerate(img))
-        polys = [c for c in ax.collections if isinstance(c, m["PolyCollection"])]
-        if polys:
-            pc = polys[-1]
-            cells = []
-            for path, fc in zip(pc.get_paths(), pc.get_facecolors()):
-                cx, cy = path.vertices[:6].mean(axis=0)
-                row = round(cy / 1.5)
-                colf = (cx - (row % 2 == 0) * SQ3 / 2) / SQ3
-                col = round(colf)
-                ok = abs(cy / 1.5 - row) < 1e-6 and abs(colf - col) < 1e-6
-                cells.append(((col, row) if ok else ("?", "?"), value_of(np.asarray(fc))))
-            self.trace.append(("layer", data.tolist(), mode, ("hex", cells), None))
-            return "ok hex" + "".join(f" {c},{r}={v}" for (c, r), v in cells)
-        self.trace.append(("layer", data.tolist(), mode, ("none", None), None))
-        return "ok none"
+                fcs = pic.get_facecolors()
+                cells, where = [], []
+                for path in pic.get_paths():
+                    cx, cy = path.vertices[:6].mean(axis=0)
+                    row = round(cy / 1.5)
+                    colf = (cx - (row % 2 == 0) * SQ3 / 2) / SQ3
+                    col = round(colf)
+                    okc = abs(cy / 1.5 - row) < 1e-6 and abs(colf - col) < 1e-6
+                    where.append((col, row) if okc else ("?", "?"))
+                if spec is not None and spec[1] == "cmap":
+                    cmap = m["matplotlib"].colormaps[spec[2]] if spec[2] in m["matplotlib"].colormaps else None
+                    # the level behind a colour: searched among the multiples of 1 / (vmax - vmin) of this request
+                    lo = min(min(r) for r in datas[name]) if spec[4] is None else spec[4]
+                    hi = max(max(r) for r in datas[name]) if spec[5] is None else spec[5]
+                    span = max(hi - lo, 1)
+                    from fractions import Fraction
+
+                    cands = [Fraction(k, span) for k in range(span + 1)]
+                    alphas = {round(float(fc[3]), 9) for fc in fcs}
+                    atok = to_tok("alpha", alphas.pop()) if len(alphas) == 1 else "?"
+                    for fc in fcs:
+                        hit = [c for c in cands if cmap is not None and np.abs(np.asarray(cmap(float(c)))[:3] - fc[:3]).sum() < 1e-6]
+                        cells.append(self.frac_tok(float(hit[0])) if len(hit) == 1 else "?")
+                    head = f"{name} hexmap cmap={spec[2]} alpha={atok} cbar={btok}"
+                    res.append((name, "hexmap", spec[2], atok, None, None, btok, list(zip(where, cells))))
+                else:
+                    ctok = colors.get(tuple(fcs[0][:3]), "?") if len(fcs) else "?"
+                    if len(fcs) and not (fcs[:, :3] == fcs[0, :3]).all():
+                        ctok = "?"
+                    cells = [self.frac_tok(fc[3]) for fc in fcs]
+                    head = f"{name} hex color={ctok} cbar={btok}"
+                    res.append((name, "hex", ctok, None, None, None, btok, list(zip(where, cells))))
+                out += " | " + head + "".join(f" {c},{r}={v}" for (c, r), v in zip(where, cells))
+        stray = sorted(set(bars) - set(drawn_names))
+        if stray:
+            out += " | stray-colorbars=" + "+".join(stray)
+        self.trace.append(("layers", self.fam, datas, specs, res, None))
+        return out
+
+    LEGACY_SPEC = {
+        "cmap": ("v", "cmap", "viridis", None, 0, 9, False),
+        "color": ("v", "color", "red", None, 0, 9, False),
+        "cmapauto": ("v", "cmap", "viridis", None, None, None, False),
+        "colorauto": ("v", "color", "red", None, None, None, False),
+    }
+
+    @staticmethod
+    def parse_spec(tok):
+        name, mode, alpha, vmin, vmax, cbar = tok.split(":")
+        kind, _, arg = mode.partition("=")
+        opt = lambda t, f: None if t == "-" else f(t)  # noqa: E731
+        return (name, kind, arg or None, opt(alpha, int), opt(vmin, int), opt(vmax, int), opt(cbar, lambda t: t == "y"))
 
     # dispatcher --------------------------------------------------------------------------------
     def line(self, w):
@@ -577,9 +666,13 @@ class SpaceImpl:
         if k == "heap":
             return self.heap_line()
         if k == "layer":
-            return self.set_layer([int(v) for v in w[1:]])
+            return self.set_layer("v", [int(v) for v in w[1:]])
+        if k == "layern":
+            return self.set_layer(w[1], [int(v) for v in w[2:]])
         if k == "drawlayer":
-            return self.draw_layer(w[1])
+            return self.draw_layers([self.LEGACY_SPEC[w[1]]])
+        if k == "drawlayers":
+            return self.draw_layers([self.parse_spec(t) for t in w[1:]])
         raise ValueError(w)
 
 
@@ -732,6 +825,32 @@ def gen_dict(R, policy):
     return " ".join(f"{k}={v}" for k, v in kv)
 
 
+def gen_drawlayers(R, names):
+    """a request for draw_property_layers: mostly layers the space has, in any order, sometimes a name it has not"""
+    req = R.sample(names, R.randint(1, len(names))) if names else []
+    if R.random() < 0.2 or not req:
+        req.insert(R.randrange(len(req) + 1), "zz")
+    specs = []
+    for n in req:
+        k = R.random()
+        mode = f"color={R.choice(LAYER_COLORS)}" if k < 0.55 else f"cmap={R.choice(LAYER_CMAPS)}" if k < 0.97 else "none"
+        alpha = "-" if R.random() < 0.5 else str(R.choice([25, 50, 100]))
+        k = R.random()
+        if k < 0.4:
+            vmin = vmax = "-"
+        elif k < 0.5:
+            vmin, vmax = (str(R.randint(-2, 3)), "-") if R.random() < 0.5 else ("-", str(R.randint(6, 12)))
+        else:
+            lo = R.randint(-2, 6)
+            hi = lo + R.choice([0, 1, 2, 3, 4, 6, 8]) if R.random() < 0.95 else lo - R.randint(1, 3)
+            vmin, vmax = str(lo), str(hi)
+        cbar = R.choice(["-", "y", "n", "n"])
+        if vmin != "-" and vmax != "-" and int(vmax) < int(vmin):
+            cbar = "n"  # what a colour bar makes of an inverted range (nonsingular swaps and widens it) is matplotlib's
+        specs.append(f"{n}:{mode}:{alpha}:{vmin}:{vmax}:{cbar}")
+    return "drawlayers " + " ".join(specs)
+
+
 def gen_space(R, tier):
     fam = R.choice(FAMILIES + ("multi", "moore", "hex", "hexm", "netgrid", "net"))
     w, h = R.choice([1, 2, 2, 3, 3, 4, 5]), R.choice([1, 2, 3, 3, 4, 5])
@@ -816,14 +935,28 @@ def gen_space(R, tier):
     for _ in range(R.randint(1, 3)):
         lines.append(observe())
     if fam in GRIDS and R.random() < 0.5:
-        mode = R.choice(["cmap", "color", "cmapauto", "colorauto"])
-        vals = [R.randrange(10) for _ in range(w * h)]
-        if R.random() < 0.12:
-            vals = [vals[0]] * (w * h)  # a constant layer: under an automatic range vmin == vmax (V13)
-        lines.append("layer " + " ".join(map(str, vals)))
-        lines.append(f"drawlayer {mode}")
-        if R.random() < 0.5:
-            lines.append(f"drawlayer {R.choice([mode, 'color', 'cmap'])}")  # drawing twice shows the same values
+        def layer_vals():
+            vals = [R.randrange(10) for _ in range(w * h)]
+            if R.random() < 0.12:
+                vals = [vals[0]] * (w * h)  # a constant layer: under an automatic range vmin == vmax (V13)
+            return " ".join(map(str, vals))
+
+        if R.random() < 0.3:
+            mode = R.choice(["cmap", "color", "cmapauto", "colorauto"])
+            lines.append("layer " + layer_vals())
+            lines.append(f"drawlayer {mode}")
+            if R.random() < 0.5:
+                lines.append(f"drawlayer {R.choice([mode, 'color', 'cmap'])}")  # drawing twice shows the same values
+        else:
+            names = R.sample(LAYER_NAMES, R.choice([1, 1, 2, 3]))
+            for n in names:
+                lines.append(f"layern {n} " + layer_vals())
+            for _ in range(R.choice([1, 2, 2, 3])):
+                lines.append(gen_drawlayers(R, names))
+                if R.random() < 0.15:
+                    lines.append(f"layern {R.choice(names)} " + layer_vals())
+    elif fam not in GRIDS and R.random() < 0.04:
+        lines.append(gen_drawlayers(R, []))  # only grids have property layers
     for _ in range(R.randint(0, 6)):
         k = R.random()
         if k < 0.3 and where:
@@ -1077,24 +1210,83 @@ def oracle(sc, obs):
                 bad.append(f"altair-one-row-per-agent: rows {got} but the agents in the space demand {want}")
         elif kind == "layer-mutated":
             bad.append(f"layer-mutated: drawing the property layer changed the model's layer values from {ev[1]} to {ev[2]}")
-        elif kind == "layer":
-            _, data, mode, res, err = ev
+        elif kind == "layers":
+            from fractions import Fraction
+
+            _, fam_, datas, specs, res, err = ev
+            known = [sp for sp in specs if sp[0] in datas]
+
+            def rng(sp):
+                flat = [v for col in datas[sp[0]] for v in col]
+                return (min(flat) if sp[4] is None else sp[4], max(flat) if sp[5] is None else sp[5])
+
             if err is not None:
-                bad.append(f"layer-raised: draw_property_layers raised {err}")
+                # the request itself is at fault: the space class has no property layers, a layer's portrayal names
+                # neither a colour nor a colormap, a hex layer is given an inverted range (Normalize refuses it)
+                legit = (fam_ not in GRIDS or any(sp[1] == "none" for sp in known)
+                         or (fam_ in HEXES and any(rng(sp)[0] > rng(sp)[1] for sp in known)))
+                if not legit:
+                    bad.append(f"layers-raised: draw_property_layers raised {err} for {specs}")
                 continue
-            shape, cells = res
-            wd, hd = len(data), len(data[0])
-            if shape == "img":
-                if fam in HEXES:
-                    bad.append("layer-hex-as-image: a hex grid's layer is drawn as a square image")
-                elif cells != [[data[c][r] for c in range(wd)] for r in range(hd)]:
-                    bad.append(f"layer-orientation: image {cells} for data[x][y] {data}")
-            elif shape == "hex":
-                want = sorted(((c, r), data[c][r]) for c in range(wd) for r in range(hd))
-                if sorted(cells, key=str) != sorted(want, key=str):
-                    bad.append(f"layer-orientation: hexagons {cells} for data[x][y] {data}")
-            else:
-                bad.append("layer-not-drawn: nothing was drawn for the layer")
+            if fam_ not in GRIDS or any(sp[1] == "none" for sp in known):
+                bad.append(f"layers-not-refused: {specs} drawn on {fam_} without an error")
+                continue
+            if [r[0] for r in res] != [sp[0] for sp in known]:
+                bad.append(f"layers-drawn: pictures for {[r[0] for r in res]} but the request names the layers {[sp[0] for sp in known]}")
+                continue
+            for r, sp in zip(res, known):
+                name, shape, arg, atok, lotok, hitok, btok, cells = r
+                data = datas[name]
+                wd, hd = len(data), len(data[0])
+                lo, hi = rng(sp)
+                alpha = Fraction(100 if sp[3] is None else sp[3], 100)
+                if (fam_ in HEXES) != shape.startswith("hex"):
+                    bad.append(f"layer-shape: layer {name} of a {fam_} grid drawn as {shape}")
+                    continue
+                if (sp[1] == "cmap") != shape.endswith("map") or arg != sp[2]:
+                    bad.append(f"layer-mode: layer {name} requested as {sp[1]}={sp[2]} drawn as {shape} {arg}")
+                want_bar = "-" if sp[6] is False else f"{lo}..{hi}"
+                if btok != want_bar:
+                    bad.append(f"layer-colorbar: layer {name} has colour bar {btok}, its values are drawn over the range {want_bar}")
+                # which cell shows what
+                if shape.startswith("img"):
+                    if len(cells) != hd or any(len(row) != wd for row in cells):
+                        bad.append(f"layer-orientation: image of {len(cells)} rows for a {wd} x {hd} grid")
+                        continue
+                    shown = {(x, y): cells[y][x] for x in range(wd) for y in range(hd)}
+                else:
+                    if sorted(c for c, _ in cells) != sorted((x, y) for x in range(wd) for y in range(hd)):
+                        bad.append(f"layer-orientation: hexagons {[c for c, _ in cells]} for a {wd} x {hd} grid")
+                        continue
+                    shown = dict(cells)
+                if shape == "imgmap":
+                    # the values themselves are handed to imshow together with the range and the opacity
+                    if any(shown[x, y] != str(data[x][y]) for x in range(wd) for y in range(hd)):
+                        bad.append(f"layer-orientation: image {cells} for data[x][y] {data}")
+                    if (lotok, hitok, atok) != (str(lo), str(hi), str(int(alpha * 100))):
+                        bad.append(f"layer-range: layer {name} drawn with vmin={lotok} vmax={hitok} alpha={atok}, requested {lo} {hi} {alpha}")
+                    continue
+                if shape == "hexmap" and atok != str(int(alpha * 100)):
+                    bad.append(f"layer-alpha: layer {name} drawn with opacity {atok}, requested {alpha}")
+                if lo > hi:
+                    continue
+                full = alpha if shape in ("img", "hex") else Fraction(1)
+                for (x, y), tok in shown.items():
+                    v = data[x][y]
+                    got = Fraction(tok) if tok != "?" else None
+                    if got is None:
+                        bad.append(f"layer-value: cell ({x},{y}) of layer {name} shows no value (data {data})")
+                        break
+                    if lo == hi or v <= lo:
+                        ok = got == 0
+                    elif v < hi:
+                        ok = got == Fraction(v - lo, hi - lo) * full  # linear in the value between vmin and vmax
+                    else:
+                        ok = (full if v == hi else min(full, 1)) <= got <= 1 if v > hi else got == full
+                    if not ok:
+                        bad.append(f"layer-value: cell ({x},{y}) of layer {name} holds {v} and is drawn at {tok} "
+                                   f"(range {lo}..{hi}, opacity {alpha}, data {data})")
+                        break
         elif kind in ("check", "creator"):
             _, src, keys, out, callable_ok, has_vp = ev
             accepted = out == "ok accept"
